@@ -98,9 +98,13 @@ func NewWorld(seed uint64, perType, nmac int) (*World, error) {
 			w.rev[string(pb)] = Pub(k)
 		}
 	}
+	// secrets: their own stream (key generation consumes a varying number of bytes), and
+	// no trailing zero byte (HMAC pads keys with zeros: K and K||0 are the same secret)
+	md := &detReader{s: seed ^ 0x5ec2e7}
 	for i := 0; i < nmac; i++ {
 		m := make([]byte, 32)
-		rd.Read(m)
+		md.Read(m)
+		m[31] |= 1
 		w.Macs = append(w.Macs, m)
 	}
 	return w, nil
